@@ -623,6 +623,8 @@ type desc struct {
 	Sampled  string   `json:"sampled"`
 	Chunked  string   `json:"chunked"`
 	Shape    string   `json:"shape"`
+	Corpus   string   `json:"corpus,omitempty"`
+	Untrim   bool     `json:"untrimmed_chunks"`
 }
 
 func main() {
@@ -634,11 +636,14 @@ func main() {
 		Footer:   gallina.StdFooter}
 	rg := newRig()
 	defer rg.srv.Close()
+	id0 := 0
+	seen0 := map[string]bool{}
 
+	runCorpus(f, meta, cf, rg, &id0, seen0)
 	nStores := f.Count(24, 1200)
 	perStore := 8
-	id := 0
-	seen := map[string]bool{}
+	id := id0
+	seen := seen0
 	for si := 0; si < nStores; si++ {
 		r := gen.Fork(f.Seed, si)
 		dir, err := os.MkdirTemp(f.Out, "c42db")
@@ -650,7 +655,7 @@ func main() {
 			panic(fmt.Sprintf("store %d: %v", si, err))
 		}
 		for qi := 0; qi < perStore; qi++ {
-			runCase(f, meta, cf, rg, st, si, r, &id, seen)
+			runCase(f, meta, cf, rg, st, si, r, &id, seen, nil)
 		}
 		st.db.Close()
 		os.RemoveAll(dir)
@@ -777,6 +782,67 @@ func equalSeries(a, b []ser) bool {
 	return true
 }
 
+// runCorpus: fixed reproducers, always first (store indices -1, -2, ...).
+func runCorpus(f gallina.Flags, meta *gallina.Meta, cf *gallina.CaseFile, rg *rig, id *int, seen map[string]bool) {
+	all := []*labels.Matcher{labels.MustNewMatcher(labels.MatchRegexp, "__name__", ".+")}
+	lset := labels.FromStrings("__name__", "m0", "job", "a")
+	type fixed struct {
+		desc    string
+		spc     int
+		samples []pend
+		queries []qparams
+	}
+	var nine []pend
+	for t := int64(1); t <= 9; t++ {
+		nine = append(nine, pend{l: lset, t: t * 10, v: float64(t)})
+	}
+	fx := []fixed{
+		{"corpus: one float series, 9 samples, 3 per chunk", 3, nine, []qparams{
+			{name: "split-three-frames", mint: 0, maxt: 100, ms: all, maxBytes: 1},
+			{name: "split-untrimmed-range-inside", mint: 25, maxt: 75, ms: all, maxBytes: 1, untrimmed: true},
+			{name: "one-frame", mint: 0, maxt: 100, ms: all, maxBytes: 1 << 20},
+			{name: "limit-exact", mint: 0, maxt: 100, ms: all, maxBytes: 1 << 20, limit: 9},
+			{name: "limit-one-below", mint: 0, maxt: 100, ms: all, maxBytes: 1 << 20, limit: 8},
+		}},
+		{"corpus: float series with -0.0", 120, []pend{{l: lset, t: 1000, v: math.Copysign(0, -1)}, {l: lset, t: 2000, v: 0}}, []qparams{
+			{name: "negative-zero", mint: 0, maxt: 5000, ms: all, maxBytes: 1 << 20},
+		}},
+		{"corpus: sample at MaxInt64-1", 120, []pend{{l: lset, t: 1000, v: 1}, {l: lset, t: math.MaxInt64 - 1, v: 2}}, []qparams{
+			{name: "maxint64-minus-one", mint: 0, maxt: math.MaxInt64, ms: all, maxBytes: 1 << 20},
+		}},
+	}
+	for i, c := range fx {
+		dir, err := os.MkdirTemp(f.Out, "c42corpus")
+		if err != nil {
+			panic(err)
+		}
+		db, err := tsdbx.Open(dir, tsdbx.Options{BlockRange: 10_000_000, SamplesPerChunk: c.spc})
+		if err != nil {
+			panic(err)
+		}
+		st := &store{db: db, desc: c.desc, names: []string{"m0"}, jobs: []string{"a"}}
+		app := db.DB.Appender(context.Background())
+		for _, p := range c.samples {
+			if _, err := app.Append(0, p.l, p.t, p.v); err != nil {
+				panic(fmt.Sprintf("%s: %v", c.desc, err))
+			}
+			st.times = append(st.times, p.t)
+		}
+		if err := app.Commit(); err != nil {
+			panic(err)
+		}
+		for qi := range c.queries {
+			q := c.queries[qi]
+			if q.ext.IsEmpty() {
+				q.ext = labels.EmptyLabels()
+			}
+			runCase(f, meta, cf, rg, st, -1-i, gen.Fork(f.Seed, 1_000_000+i), id, seen, &q)
+		}
+		db.Close()
+		os.RemoveAll(dir)
+	}
+}
+
 func pickTime(r *gen.Rand, st *store) int64 {
 	if len(st.times) == 0 {
 		return r.Range(0, 3000)
@@ -784,7 +850,19 @@ func pickTime(r *gen.Rand, st *store) int64 {
 	return st.times[r.Intn(len(st.times))] + r.PickI64(-1, 0, 0, 0, 1)
 }
 
-func runCase(f gallina.Flags, meta *gallina.Meta, cf *gallina.CaseFile, rg *rig, st *store, si int, r *gen.Rand, id *int, seen map[string]bool) {
+// qparams is a fixed query of the corpus.
+type qparams struct {
+	name       string
+	mint, maxt int64
+	ms         []*labels.Matcher
+	maxBytes   int
+	limit      int
+	sortSeries bool
+	ext        labels.Labels
+	untrimmed  bool
+}
+
+func runCase(f gallina.Flags, meta *gallina.Meta, cf *gallina.CaseFile, rg *rig, st *store, si int, r *gen.Rand, id *int, seen map[string]bool, preset *qparams) {
 	// ---- the query
 	var mint, maxt int64
 	switch r.Intn(10) {
@@ -839,6 +917,9 @@ func runCase(f gallina.Flags, meta *gallina.Meta, cf *gallina.CaseFile, rg *rig,
 	// (DisableTrimming), like a store that hands out whole chunks: then the client's own
 	// trimming in chunkedSeriesIterator does the work
 	untrimmed := r.Chance(1, 2)
+	if preset != nil {
+		mint, maxt, ms, maxBytes, sortSeries, ext, untrimmed = preset.mint, preset.maxt, preset.ms, preset.maxBytes, preset.sortSeries, preset.ext, preset.untrimmed
+	}
 	var qa storage.SampleAndChunkQueryable = st.db.DB
 	if untrimmed {
 		qa = untrimmedQueryable{st.db.DB}
@@ -875,6 +956,10 @@ func runCase(f gallina.Flags, meta *gallina.Meta, cf *gallina.CaseFile, rg *rig,
 		if limit < 0 {
 			limit = 0
 		}
+	}
+	corpus := ""
+	if preset != nil {
+		limit, corpus = preset.limit, preset.name
 	}
 
 	var mstr []string
@@ -988,7 +1073,7 @@ func runCase(f gallina.Flags, meta *gallina.Meta, cf *gallina.CaseFile, rg *rig,
 		co += ": " + chunked.Err
 	}
 	meta.Case(*id, desc{Store: st.desc, StoreIdx: si, Mint: mint, Maxt: maxt, Matchers: mstr, MaxBytes: maxBytes, Limit: limit,
-		Sort: sortSeries, Ext: ext.String(), Series: len(direct), Samples: total, Frames: len(frames), Sampled: so, Chunked: co, Shape: shape})
+		Sort: sortSeries, Ext: ext.String(), Series: len(direct), Samples: total, Frames: len(frames), Sampled: so, Chunked: co, Shape: shape, Corpus: corpus, Untrim: untrimmed})
 	meta.Evaluations++
 	*id++
 }
